@@ -14,6 +14,9 @@ type ModelSpec struct {
 	Name  string   `json:"name"`
 	Bytes []byte   `json:"bytes"`
 	Ops   []string `json:"ops,omitempty"`
+	// ShareProto: load through gonnx.ModelProtoFromBytes once per world and gonnx.NewModel(mp) for every spec with
+	// these bytes, so that several Models wrap ONE protobuf (the exported API allows it).
+	ShareProto bool `json:"share_proto,omitempty"`
 }
 
 // OpFault injects a failure of a (user-registered or built-in) operator at one node of one Run.
